@@ -240,6 +240,25 @@ var mutOps = []mutOp{
 	}},
 }
 
+func init() {
+	// "inconsistent value": a value that is valid elsewhere — the other peer's or the local device address,
+	// the neighbouring entity, feature, identifier or counter
+	mutOps = append(mutOps, mutOp{"othervalid", func(v any) (any, bool) {
+		switch x := v.(type) {
+		case string:
+			switch x {
+			case "dA":
+				return "dB", true
+			case "dB", world.LocalAddr:
+				return "dA", true
+			}
+		case float64:
+			return x + 1, true
+		}
+		return nil, false
+	}})
+}
+
 type mutant struct {
 	desc string
 	raw  []byte
@@ -334,6 +353,17 @@ func c05Run(state int, raw []byte, replay []c05Seed) (viol []string) {
 			c.a.DeliverRaw(s.raw)
 			rt.WaitIdle()
 		}
+		// further valid traffic that touches every registry (its handling must return; what it is answered
+		// depends on what the mutant legitimately changed and is not judged)
+		b := c.b
+		b.SetCounter(4000)
+		b.Deliver(b.SubscribeCall(cliAddr("B", "e1f1", true), srvAddr("L2lc", true), model.FeatureTypeTypeLoadControl))
+		b.Deliver(b.BindCall(cliAddr("B", "e1f1", true), srvAddr("L2lc", true), model.FeatureTypeTypeLoadControl))
+		b.Deliver(b.Datagram(cliAddr("B", "e1f1", true), srvAddr("L2lc", true), model.CmdClassifierTypeWrite, true, nil, model.CmdType{LoadControlLimitListData: limitList(2, 1, 2)}))
+		b.Deliver(b.UnbindCall(cliAddr("B", "e1f1", true), srvAddr("L2lc", true)))
+		b.Deliver(b.UnsubscribeCall(cliAddr("B", "e1f1", true), srvAddr("L2lc", true)))
+		c.w.L.FeatureByAddress(srvAddr("L1lc", true)).SetData(fnLimit, limitList(2, 1, 2))
+		rt.WaitIdle()
 		for _, p := range []*world.Peer{c.a, c.b} {
 			p.SetCounter(5000)
 			m := c.w.Mark()
@@ -426,7 +456,7 @@ func c05Families(thorough bool) []*engine.IFamily {
 	fams := []*engine.IFamily{
 		{Name: "valid-seeds", Chunks: nSeeds, Rule: "each of the 22 valid seed messages delivered unchanged in the three connection states, then every seed replayed, then discovery reads on both connections (the harness itself must not raise alarms on valid traffic); non-trivial: all",
 			Run: run("seed", 1, func(s c05Seed, _ int) []mutant { return []mutant{{"unchanged", s.raw}} }, true)},
-		{Name: "single-mutants", Chunks: nSeeds * 4, Rule: "all single field mutations (remove, null, empty of its kind, wrong kind, unknown value) of every node of the JSON tree of each of the 22 seed messages x 3 connection states (just connected; after discovery; after discovery+subscription+binding+pending request), each on a fresh world, followed by a valid discovery read on the mutant's and on the other peer's connection; non-trivial: all",
+		{Name: "single-mutants", Chunks: nSeeds * 4, Rule: "all single field mutations (remove, null, empty of its kind, wrong kind, unknown value, other valid value: the other peer's/local device address, neighbouring number) of every node of the JSON tree of each of the 22 seed messages x 3 connection states (just connected; after discovery; after discovery+subscription+binding+pending request), each on a fresh world, followed by valid registry traffic of the other peer (subscribe, bind, write, unbind, unsubscribe), a local data change, and a valid discovery read on the mutant's and on the other peer's connection; non-trivial: all",
 			Run: run("single", 4, func(s c05Seed, sub int) []mutant {
 				var out []mutant
 				for i, m := range singleMutants(s) {
